@@ -1,6 +1,8 @@
 pub mod c01;
 pub mod c02;
 pub mod c03;
+pub mod c04;
+pub mod c05;
 pub mod c06;
 pub mod c09;
 pub mod c10;
@@ -36,5 +38,5 @@ impl Case {
 }
 
 pub fn all() -> Vec<Box<dyn Prop>> {
-    vec![Box::new(c01::C01), Box::new(c02::C02), Box::new(c03::C03), Box::new(c06::C06), Box::new(c09::C09), Box::new(c10::C10), Box::new(c11::C11), Box::new(c12::C12)]
+    vec![Box::new(c01::C01), Box::new(c02::C02), Box::new(c03::C03), Box::new(c04::C04), Box::new(c05::C05), Box::new(c06::C06), Box::new(c09::C09), Box::new(c10::C10), Box::new(c11::C11), Box::new(c12::C12)]
 }
